@@ -17,7 +17,7 @@ REQUIRED_THEOREMS = [
     'C09_empty_grid_counterexample_before_3790485', 'C09_name_map_aligned', 'C09_sens_restricted_map',
     'C09_sens_order', 'C09_sens_restricted', 'C09_sens_reduced', 'C09_sens_is_derivative',
     'C09_sens_all_fixed_counterexample_before_f18d571', 'C09_sens_step_indep', 'C09_sens_reselect',
-    'C09_sens_history', 'C09_reduced_history',
+    'C09_sens_history', 'C09_reduced_history', 'C09_simulate_keeps_fixed',
     'C09_reduced_vector', 'C09_reduced_fullVector', 'C09_reduced_vector_cast', 'C09_output_order', 'C09_output_rows',
     'argsortBy_isArgsort']
 RULE = ('generated SBML compartment models (2-6 states as species in 1-3 compartments or rate-rule '
@@ -450,22 +450,42 @@ def check_histories(ctx, chi, model, rng, dargs, states, inter, pub, myo, n_s, t
     ctx.spec('C09.sens_order/after_history', cs == want and model.has_sensitivities() == (want_sel is not None),
              hinp, {'solver asked for': cs, 'expected': want})
     model.enable_sensitivities(False)
-    # ---- reduced model
-    red = chi.ReducedMechanisticModel(model)
-    ops, fixed, on = [['o', cur_outs]], {}, False
+    # ---- reduced model(s): one wrapper and the copies taken of it along the way; operations go to any of them,
+    # simulations happen in between, and at the end EVERY object must route the vector by its own settings
+    objs = [{'obj': chi.ReducedMechanisticModel(model), 'ops': [['o', cur_outs]], 'fixed': {}, 'on': False,
+             'outs': cur_outs, 'name': 'original'}]
+
+    def routing(o, hinp, where):
+        free_ = [i for i in range(n_p) if pub[i] not in o['fixed']]
+        vec = rng.uniform(0.3, 1.5, len(free_))
+        res, st, cc, _ = sim_record(o['obj'], vec, [0.0])
+        full_ = np.array([o['fixed'].get(n, 0.0) for n in pub], float)
+        full_[free_] = vec
+        rinp = dict(hinp, object=o['name'], checked=where, free_parameters=vec)
+        if isinstance(res, Exception) or st is None:
+            ctx.spec('C09.state_routing/after_history', False, rinp, {'raised': repr(res)[:200]})
+        else:
+            ctx.spec('C09.state_routing/after_history', st == {myo[i]: float(full_[i]) for i in range(n_s)}, rinp,
+                     {'set_state': st, 'expected': {myo[i]: float(full_[i]) for i in range(n_s)}})
+            ctx.spec('C09.const_routing/after_history', dict((a_, b_) for a_, b_ in cc) ==
+                     {myo[i]: float(full_[i]) for i in range(n_s, n_p)}, rinp,
+                     {'set_constant': cc, 'expected': {myo[i]: float(full_[i]) for i in range(n_s, n_p)}})
+        o['ops'].append(['s', [float(v) for v in vec]])
     try:
-        for _ in range(int(rng.integers(2, 7))):
+        for _ in range(int(rng.integers(3, 9))):
+            o = objs[int(rng.integers(len(objs)))]
+            red = o['obj']
             r = rng.random()
-            if r < 0.3:
+            if r < 0.2:
                 red.enable_sensitivities(True)
-                ops.append(['e'])
-                on = True
-            elif r < 0.4:
+                o['ops'].append(['e'])
+                o['on'] = True
+            elif r < 0.28:
                 red.enable_sensitivities(False)
-                ops.append(['d'])
-                on = False
-            elif r < 0.9:
-                if rng.random() < 0.2:
+                o['ops'].append(['d'])
+                o['on'] = False
+            elif r < 0.62:
+                if rng.random() < 0.15:
                     upd = {n: float(rng.uniform(0.3, 1.5)) for n in pub}          # fix every parameter
                 else:
                     upd = {}
@@ -474,52 +494,67 @@ def check_histories(ctx, chi, model, rng, dargs, states, inter, pub, myo, n_s, t
                 red.fix_parameters(upd)
                 for k_, v_ in upd.items():
                     if v_ is None:
-                        fixed.pop(k_, None)
+                        o['fixed'].pop(k_, None)
                     else:
-                        fixed[k_] = v_
-                if fixed:
-                    ops.append(['f', [n in fixed for n in pub], [fixed.get(n, 0.0) for n in pub]])
+                        o['fixed'][k_] = v_
+                if o['fixed']:
+                    o['ops'].append(['f', [n in o['fixed'] for n in pub], [o['fixed'].get(n, 0.0) for n in pub]])
                 else:
-                    ops.append(['f', None, []])
+                    o['ops'].append(['f', None, []])
+            elif r < 0.8:
+                routing(o, dict(inp, history=[list(x) for x in o['ops']]), 'in between')
+            elif r < 0.9 and len(objs) < 3:
+                # a copy is an independent model with the same fixed parameters and outputs, sensitivities off
+                objs.append({'obj': red.copy(), 'ops': [list(x) for x in o['ops']] + [['d']],
+                             'fixed': dict(o['fixed']), 'on': False, 'outs': list(o['outs']),
+                             'name': 'copy of ' + o['name']})
+                ctx.branches.add('history:copy')
             else:
-                cur_outs = rand_outs()
-                red.set_outputs(cur_outs)
-                ops.append(['o', cur_outs])
-                on = False
+                o['outs'] = rand_outs()
+                red.set_outputs(o['outs'])
+                o['ops'].append(['o', o['outs']])
+                o['on'] = False
     except Exception as e:  # noqa
-        ctx.spec('C09.sens_order/after_history', False, dict(inp, history=ops, fixed=dict(fixed)),
-                 {'raised by the next operation': repr(e)[:300], 'sensitivities_on': on})
+        ctx.spec('C09.sens_order/after_history', False, dict(inp, history=[x['ops'] for x in objs]),
+                 {'raised by the next operation': repr(e)[:300]})
         return
-    free = [i for i in range(n_p) if pub[i] not in fixed]
-    pfree = rng.uniform(0.3, 1.5, len(free))
-    hinp = dict(inp, history=ops, free_parameters=pfree)
-    cs = red_request(red, pfree, times, enable=False)
-    mh = ctx.model('C09.redhistory', *dargs, pub, ops)
-    chi_side = cs + [bool(red.has_sensitivities()), list(red.parameters())] if cs[0] == 'ok' else cs
-    ctx.agree('C09.reduced_history', chi_side, mh[:6] if mh[0] == 'ok' else mh, hinp)
-    ctx.case('history/reduced', nontrivial='history/reduced/%s/%s' % (''.join(o[0] for o in ops),
-                                                                       'allfixed' if not free else 'some'))
-    if not on:
-        want = ['ok', None, None, 0]
-    elif not free:
-        want = ['ok', None, None, 0]
-        ctx.branches.add('reduced:all-fixed-with-sensitivities')
-    else:
-        want = ['ok', cur_outs, [tag_of(i) for i in free], len(free)]
-    ctx.spec('C09.sens_order/after_history', cs == want and bool(red.has_sensitivities()) == on, hinp,
-             {'solver asked for': cs, 'expected': want, 'has_sensitivities': red.has_sensitivities()})
-    if on and free and oracle is not None and rng.random() < 0.5:
-        r2 = sim_record(red, pfree, times)[0]
-        full = np.array([fixed.get(n, 0.0) for n in pub])
-        full[free] = pfree
-        if isinstance(r2, Exception) or not isinstance(r2, tuple):
-            ctx.spec('C09.sens_order/after_history', False, hinp, {'raised': repr(r2)[:200]})
+    for o in objs:
+        red, fixed, on, ops = o['obj'], o['fixed'], o['on'], o['ops']
+        free = [i for i in range(n_p) if pub[i] not in fixed]
+        hinp = dict(inp, object=o['name'], history=[list(x) for x in ops],
+                    all_objects={x['name']: len(x['ops']) for x in objs})
+        routing(o, hinp, 'at the end')
+        pfree = rng.uniform(0.3, 1.5, len(free))
+        cs = red_request(red, pfree, times, enable=False)
+        mh = ctx.model('C09.redhistory', *dargs, pub, ops)
+        chi_side = cs + [bool(red.has_sensitivities()), list(red.parameters())] if cs[0] == 'ok' else cs
+        ctx.agree('C09.reduced_history', chi_side, mh[:6] if mh[0] == 'ok' else mh, hinp)
+        ctx.case('history/reduced', nontrivial='history/reduced/%s/%s/%s' % (
+            ''.join(x[0] for x in ops), 'allfixed' if not free else 'some', o['name'][:4]))
+        if not on:
+            want = ['ok', None, None, 0]
+        elif not free:
+            want = ['ok', None, None, 0]
+            ctx.branches.add('reduced:all-fixed-with-sensitivities')
         else:
-            ov, os_ = oracle(cur_outs, {myo[i]: float(full[i]) for i in range(n_p)}, times, [myo[i] for i in free])
-            err = max(cf.rel_err(r2[1], os_, 1e-3), cf.rel_err(r2[0], ov, 1e-3))
-            ctx.extra['refsim_validation']['comparisons'] += 1
-            ctx.spec('C09.library_equations' if label.startswith('library') else 'C09.sens_values', err <= TOL,
-                     hinp, {'chi': r2[1], 'oracle': os_, 'rel_err': err})
+            want = ['ok', o['outs'], [tag_of(i) for i in free], len(free)]
+        ctx.spec('C09.sens_order/after_history', cs == want and bool(red.has_sensitivities()) == on and
+                 list(red.parameters()) == [pub[i] for i in free], hinp,
+                 {'solver asked for': cs, 'expected': want, 'has_sensitivities': red.has_sensitivities(),
+                  'parameters()': red.parameters()})
+        if on and free and oracle is not None and rng.random() < 0.4:
+            r2 = sim_record(red, pfree, times)[0]
+            full = np.array([fixed.get(n, 0.0) for n in pub])
+            full[free] = pfree
+            if isinstance(r2, Exception) or not isinstance(r2, tuple):
+                ctx.spec('C09.sens_order/after_history', False, hinp, {'raised': repr(r2)[:200]})
+            else:
+                ov, os_ = oracle(o['outs'], {myo[i]: float(full[i]) for i in range(n_p)}, times,
+                                 [myo[i] for i in free])
+                err = max(cf.rel_err(r2[1], os_, 1e-3), cf.rel_err(r2[0], ov, 1e-3))
+                ctx.extra['refsim_validation']['comparisons'] += 1
+                ctx.spec('C09.library_equations' if label.startswith('library') else 'C09.sens_values', err <= TOL,
+                         hinp, {'chi': r2[1], 'oracle': os_, 'rel_err': err})
 
 
 # ------------------------------------------------------------------------------------------------
